@@ -135,3 +135,13 @@ Proof.
   - intro H. apply in_app_or in H as [H|[H|[]]]; [contradiction|]. subst. apply Hi. now left.
   - apply IH; [assumption|]. intro H. apply Hi. now right.
 Qed.
+
+Lemma Forall3_nth {A B C} (R : A -> B -> C -> Prop) a : forall b c,
+  length b = length a -> length c = length a ->
+  (forall k x y z, nth_error a k = Some x -> nth_error b k = Some y -> nth_error c k = Some z -> R x y z) ->
+  Forall3 R a b c.
+Proof.
+  induction a as [|x a IH]; intros [|y b] [|z c] H1 H2 H; cbn in *; try discriminate; constructor.
+  - apply (H 0); reflexivity.
+  - apply IH; try lia. intros k x' y' z' Ha Hb Hc. apply (H (S k)); assumption.
+Qed.
